@@ -580,7 +580,8 @@ func concIO(w *simnet.World, b *built, ctxDeadline bool) *histIO {
 				select {
 				case <-dbgReached:
 					// held inside the library's debug call: nothing is with the client yet
-					parkedLen = len(rec)
+					// (one Write is held per request: later ones go straight through)
+					parkedLen, dbgAt = len(rec), 0
 					return len(rec), errParked
 				case <-late: // the Write made fewer debug calls than that
 					late, dbgAt = nil, 0
